@@ -7,13 +7,19 @@ import (
 	"reflect"
 	"sort"
 	"strings"
+	"time"
 )
 
 var (
 	tCtx    = reflect.TypeOf((*context.Context)(nil)).Elem()
 	tReader = reflect.TypeOf((*io.Reader)(nil)).Elem()
 	tWriter = reflect.TypeOf((*io.Writer)(nil)).Elem()
+	tTime   = reflect.TypeOf(time.Time{})
 )
+
+// SemEq is semantic equality of two values: equal canonical dumps (nil and empty slices are
+// the same, times compare as instants).
+func SemEq(a, b any) bool { return Canon(a) == Canon(b) }
 
 // Canon returns a canonical textual dump of the full concrete state reachable from v,
 // including unexported fields. Map keys are sorted; func values, context.Context and
@@ -85,7 +91,7 @@ func (c *canon) walk(v reflect.Value, depth int) {
 		c.sb.WriteByte(':')
 		c.walk(v.Elem(), depth+1)
 	case reflect.Slice:
-		if v.IsNil() {
+		if v.IsNil() || v.Len() == 0 {
 			c.sb.WriteString("[]")
 			return
 		}
@@ -125,6 +131,10 @@ func (c *canon) walk(v reflect.Value, depth int) {
 		c.sb.WriteByte('}')
 	case reflect.Struct:
 		t := v.Type()
+		if t == tTime && v.CanInterface() {
+			fmt.Fprintf(c.sb, "time(%d)", v.Interface().(time.Time).UnixNano())
+			return
+		}
 		c.sb.WriteByte('{')
 		for i := 0; i < v.NumField(); i++ {
 			f := t.Field(i)
